@@ -144,6 +144,43 @@ def freedBytes : List Ev → List (Nat × List UInt8)
   | .ufree _ a _ u :: rest => (a, u) :: freedBytes rest
   | _ :: rest => freedBytes rest
 
+/-! ## the global overloads: which family each form belongs to (C++: `new` ↔ `delete`, `new[]` ↔ `delete[]`, `malloc` ↔ `free`) -/
+
+def acquireForms : List String := ["new", "new_fi", "new_fs", "new_nt", "newa", "newa_fi", "newa_fs", "newa_nt", "malloc"]
+def releaseForms : List String :=
+  ["del", "del_fi", "del_fs", "del_sz", "del_nt", "dela", "dela_fi", "dela_fs", "dela_sz", "dela_nt", "free"]
+
+/-- the family a form must work with, whatever extra arguments (file/line, size, `std::nothrow`) it takes -/
+def requiredFamily : String → Family
+  | "malloc" | "free" => .malloc
+  | "newa" | "newa_fi" | "newa_fs" | "newa_nt" | "dela" | "dela_fi" | "dela_fs" | "dela_sz" | "dela_nt" => .newArray
+  | _ => .new
+
+/-- does the form hand file and line to the detector (the `(size, file, line)` forms and `malloc` / `free`) -/
+def requiredLocation : String → Bool
+  | "new_fi" | "new_fs" | "newa_fi" | "newa_fs" | "malloc" | "free" => true
+  | _ => false
+
+/-- every acquiring form, in both overload modes, ends in an `allocMemory` with the current allocator of its family,
+    passing the location iff the form has one, with the family's bookkeeping layout -/
+def acquireFormsWiredCorrectly : Bool :=
+  [false, true].all (fun ts =>
+    acquireForms.all (fun f =>
+      match acquireWrapperOf ts f with
+      | some w => familyOfGetter w.getter == requiredFamily f && !w.isRealloc && w.withLocation == requiredLocation f
+                  && w.separateNode == (requiredFamily f == .malloc)
+      | none => false))
+
+/-- every releasing form, in both overload modes, ends in a release wrapper of its family -/
+def releaseFormsWiredCorrectly : Bool :=
+  [false, true].all (fun ts =>
+    releaseForms.all (fun f =>
+      match releaseWrapperOf ts f with
+      | some w => familyOfGetter w.getter == requiredFamily f && w.separateNode == (requiredFamily f == .malloc)
+      | none => false))
+
+def overloadsWiredCorrectly : Bool := acquireFormsWiredCorrectly && releaseFormsWiredCorrectly
+
 /-- number of allocations / reallocations that returned memory to the caller -/
 def successes : List Ev → Nat
   | [] => 0
